@@ -34,6 +34,34 @@ def subdivide (num chunks : Nat) : List Nat :=
 def subdivideChecked (num chunks : Nat) : Option (List Nat) :=
   if chunks > num then none else some (subdivide num chunks)
 
+/-! ### the formula the code really uses: `np.diff(np.linspace(0, num, chunks + 1).astype(int))`
+
+`np.linspace(0, num, chunks + 1)` computes `step = (num - 0) / chunks` once, point `i` as
+`i * step + 0.0`, and overwrites the last point by `num`; `astype(int)` truncates (the points are
+non-negative, so truncation is `floor`).  The same operations in the same order, generic in the
+number type: at `Float` this is bit for bit what numpy computes, over an exact ordered field it
+is `floor(i*num/chunks)` (theorem `linCut_exact`). -/
+section
+variable (K : Type) [Mul K] [Div K] [NatCast K] [HasFloor K]
+
+/-- `np.linspace(0, num, chunks + 1).astype(int)[i]` -/
+def linCut (num chunks i : Nat) : Int :=
+  if i = chunks then (num : Int)
+  else HasFloor.floor (((i : Nat) : K) * (((num : Nat) : K) / ((chunks : Nat) : K)))
+
+/-- `_subdivide(num, chunks)` as the code computes it -/
+def subdivideLin (num chunks : Nat) : List Int :=
+  (List.range chunks).map fun i => linCut K num chunks (i + 1) - linCut K num chunks i
+
+/-- `_subdivide` with its guard -/
+def subdivideLinChecked (num chunks : Nat) : Option (List Int) :=
+  if chunks > num then none else some (subdivideLin K num chunks)
+end
+
+/-- chunk sizes obtained from arbitrary cut positions `c 0, .., c chunks` -/
+def sizesOfCuts (c : Nat → Nat) (chunks : Nat) : List Nat :=
+  (List.range chunks).map fun i => c (i + 1) - c i
+
 /-- the contract the rest of the mesh code relies on: positive sizes with the right sum -/
 def Contract (sizes : List Nat) (num : Nat) : Prop := (∀ s ∈ sizes, 0 < s) ∧ sizes.sum = num
 
@@ -227,6 +255,87 @@ def mpiRead (upper : Bool) (n : Nat) : Nat := if upper then n else 1
 /-- `_idx_write`: index along the axis of the ghost layer that is received (`-1` / `0`) -/
 def mpiWrite (upper : Bool) (n : Nat) : Nat := if upper then n + 1 else 0
 
+/-- the node sits at the outer face of the base grid on this side of the axis; if it has a
+neighbour there, the face is the seam of a periodic axis -/
+def atSeam (m : Mesh) (axis : Nat) (upper : Bool) (id : Nat) : Bool :=
+  if upper then decide ((m.id2idx id).getD axis 0 + 1 = m.dec.getD axis 0)
+  else decide ((m.id2idx id).getD axis 0 = 0)
+
+/-- `flip_sign` of the `_MPIBC` that `extract_boundary_conditions` creates for a face with a
+neighbour: set exactly at the seam of an axis whose condition is anti-periodic (`anti`), never
+at a face between two sub-grids in the interior.  (py-pde before the repair of finding
+`flip_sign dropped` behaved like `anti = []`.) -/
+def mpiFlip (m : Mesh) (anti : List Bool) (axis : Nat) (upper : Bool) (id : Nat) : Bool :=
+  anti.getD axis false && atSeam m axis upper id
+
+/-- the received ghost layer is multiplied by `-1` when `flip_sign` is set -/
+def sgn {α : Type} [Neg α] (flip : Bool) (v : α) : α := if flip then -v else v
+
+/-- every coordinate of the local padded index `q` addresses a valid cell (`slice(1, -1)`) -/
+def interiorAll : List Nat → List Nat → Bool
+  | [], [] => true
+  | n :: ns, q :: qs => decide (1 ≤ q) && decide (q ≤ n) && interiorAll ns qs
+  | _, _ => false
+
+/-- every coordinate of `q` except the one of `axis` addresses a valid cell: the transversal
+`slice(1, -1)` of `_MPIBC._idx_read/_idx_write` (corners and edges are never exchanged) -/
+def interiorExcept : Nat → List Nat → List Nat → Bool
+  | _, [], [] => true
+  | 0, _ :: ns, _ :: qs => interiorAll ns qs
+  | a + 1, n :: ns, q :: qs => decide (1 ≤ q) && decide (q ≤ n) && interiorExcept a ns qs
+  | _, _, _ => false
+
+/-- `q` lies in the ghost layer `_idx_write` of a sub-grid with the given shape -/
+def onFace (shape : List Nat) (axis : Nat) (upper : Bool) (q : List Nat) : Bool :=
+  decide (axis < shape.length) && interiorExcept axis shape q &&
+    decide (q.getD axis 0 = mpiWrite upper (shape.getD axis 0))
+
+namespace Mesh
+/-- the padded array of node `id` before any ghost cell is set: the node's share of the valid
+data (addressed in the padded base array `full`), every ghost cell unwritten (`none`) -/
+def initSub {α : Type} (m : Mesh) (full : Arr α) (id : Nat) (q : List Nat) : Option α :=
+  if interiorAll (m.subShape id) q then some (full.get (vadd (starts (m.box false id)) q)) else none
+
+/-- one axis of the ghost-cell exchange, all nodes at once (`BoundaryAxisBase.set_ghost_cells` for
+the two `_MPIBC` sides): node `a` writes into its layer `_idx_write` what the neighbour read from
+its layer `_idx_read` of valid cells (transversal `slice(1, -1)`), with the sign of `flip_sign`;
+faces without a neighbour and all other cells are left alone -/
+def exchangeAxis {α : Type} [Neg α] (m : Mesh) (anti : List Bool) (axis : Nat)
+    (s : Nat → List Nat → Option α) : Nat → List Nat → Option α :=
+  fun a q =>
+    if onFace (m.subShape a) axis false q then
+      match neighbor m axis false a with
+      | some b => (s b (q.set axis (mpiRead true ((m.subShape b).getD axis 0)))).map
+                    (sgn (mpiFlip m anti axis false a))
+      | none => s a q
+    else if onFace (m.subShape a) axis true q then
+      match neighbor m axis true a with
+      | some b => (s b (q.set axis (mpiRead false ((m.subShape b).getD axis 0)))).map
+                    (sgn (mpiFlip m anti axis true a))
+      | none => s a q
+    else s a q
+
+/-- the exchange along the first `n` axes, in the order of `BoundariesList.set_ghost_cells` -/
+def exchangeUpTo {α : Type} [Neg α] (m : Mesh) (anti : List Bool) (s : Nat → List Nat → Option α) (n : Nat) :
+    Nat → List Nat → Option α :=
+  (List.range n).foldl (fun st ax => m.exchangeAxis anti ax st) s
+
+/-- the complete exchange -/
+def exchange {α : Type} [Neg α] (m : Mesh) (anti : List Bool) (s : Nat → List Nat → Option α) :
+    Nat → List Nat → Option α :=
+  m.exchangeUpTo anti s m.axes.length
+
+/-- ghost cells at the outer faces come from the global boundary condition: here they are taken
+from the padded base array `full` (on which the global condition has been imposed); faces with a
+neighbour, corners and valid cells are left alone -/
+def setOuter {α : Type} (m : Mesh) (full : Arr α) (s : Nat → List Nat → Option α) : Nat → List Nat → Option α :=
+  fun a q =>
+    if (List.range m.axes.length).any (fun ax =>
+        (onFace (m.subShape a) ax false q && (neighbor m ax false a).isNone) ||
+        (onFace (m.subShape a) ax true q && (neighbor m ax true a).isNone))
+    then some (full.get (vadd (starts (m.box false a)) q)) else s a q
+end Mesh
+
 /-! ## radius-1 stencils on padded arrays -/
 
 /-- all offsets `{0,1,2}^rank` (relative to `cell index`; the cell itself is at offset `1,..,1`
@@ -254,6 +363,32 @@ def applyStencil {α β : Type} (S : List Nat → List α → β) (reads : List 
     (pos c : List Nat) : Option β :=
   (readNb a reads c).map (S pos)
 
+/-- the same stencil on a padded sub-array given cell by cell (`none` = never written): a read of
+an unwritten cell fails -/
+def applyStencilOn {α β : Type} (S : List Nat → List α → β) (reads : List (List Nat))
+    (t : List Nat → Option α) (pos c : List Nat) : Option β :=
+  (readAll (fun d => t (vadd c d)) reads).map (S pos)
+
+/-- a read offset of a plus-shaped stencil: all coordinates `1` (the cell itself) except at most
+one, which is `0` or `2` (the package's operators never read corners or edges) -/
+def plusOffset : List Nat → Bool
+  | [] => true
+  | d :: ds => (decide (d = 1) && plusOffset ds) || (decide (d ≤ 2) && ds.all (fun x => decide (x = 1)))
+
+/-- the plus-shaped read set of rank `r`: the cell, then lower and upper neighbour per axis -/
+def plusReads (r : Nat) : List (List Nat) :=
+  List.replicate r 1 :: (List.range r).flatMap fun ax => [(List.replicate r 1).set ax 0, (List.replicate r 1).set ax 2]
+
+/-- the Cartesian Laplacian as a function of the reads `plusReads r` (`coef = 1/dx^2` per axis):
+`sum_ax (lower - 2*centre + upper) * coef_ax` -/
+def laplaceOfReads {K : Type} [Add K] [Sub K] [Mul K] [NatCast K] (coef : List K) : List K → K
+  | c :: rest =>
+    let rec go : List K → List K → K
+      | cf :: cfs, l :: h :: more => (l - ((2:Nat) : K) * c + h) * cf + go cfs more
+      | _, _ => ((0:Nat) : K)
+    go coef rest
+  | [] => ((0:Nat) : K)
+
 /-! ## sub-grid bounds and geometry -/
 section
 variable {K : Type} [Add K] [Sub K] [Mul K] [Div K] [NatCast K]
@@ -274,6 +409,9 @@ def bounds1d (lo hi : K) (sizes : List Nat) : List (K × K) :=
 /-- centre of cell `p` of a uniform axis `(a, b)` with `n` cells -/
 def cellCoord (a b : K) (n p : Nat) : K :=
   a + ((p : K) + ((1:Nat) : K) / ((2:Nat) : K)) * ((b - a) / (n : K))
+
+/-- lower edge of cell `p` of a uniform axis `(a, b)` with `n` cells (`p = n`: the upper bound) -/
+def cellEdge (a b : K) (n p : Nat) : K := a + (p : K) * ((b - a) / (n : K))
 
 /-- bounds of the sub-grid with node index `idx`, axis by axis -/
 def subBounds : List (K × K) → List (List Nat) → List Nat → List (K × K)
@@ -301,6 +439,16 @@ def volCoef (kind : GridKind) (b : List (K × K)) : K :=
   | _, _ => ((0:Nat) : K)
 end
 
+section
+variable {K : Type} [Sub K] [Mul K] [NatCast K]
+/-- volume of a grid whose volume element is a product of one-axis measures with antiderivatives
+`Fs` (up to the constant of the class): Cartesian `F = id` on every axis, polar `[r^2]`, spherical
+`[r^3]`, cylindrical `[r^2, id]` -/
+def volGen : List (K → K) → List (K × K) → K
+  | F :: Fs, p :: ps => (F p.2 - F p.1) * volGen Fs ps
+  | _, _ => ((1:Nat) : K)
+end
+
 inductive Outcome where
   | ok
   | unknownSize        -- RuntimeError "Unknown size"
@@ -310,6 +458,7 @@ inductive Outcome where
   | notImplemented     -- NotImplementedError "Cylinders with hollow core are not implemented."
   | indexError         -- decomposition longer than the number of axes, extra entry > 1
   | assertionError     -- decomposition longer than the number of axes, extra entries all 1
+  | nodeCount          -- RuntimeError "Node count (n) incompatible with decomposition" (mpi.size > 1)
   deriving DecidableEq, Repr
 
 /-- parsing of `decomposition` in `from_grid` for `mpi.size = mpiSize`: `-1` is replaced by
@@ -351,5 +500,15 @@ def fromGridOutcome (kind : GridKind) (r0nz : Bool) (shape dec : List Nat) : Out
   match subdivideAxes kind r0nz 0 shape dec with
   | .ok => if dec.length > shape.length then .assertionError else .ok
   | e => e
+
+/-- `GridMesh.from_grid(grid, d)` on `mpiSize` MPI nodes, from the raw decomposition list: parse,
+check the node count (`mpi.size > 1 and prod(decomposition) != mpi.size`), subdivide -/
+def fromGridMpi (mpiSize : Nat) (kind : GridKind) (r0nz : Bool) (shape : List Nat) (d : List Int) :
+    Outcome × Option (List Nat) :=
+  match parseDecomposition mpiSize shape.length d with
+  | .error e => (e, none)
+  | .ok dec =>
+    if mpiSize > 1 ∧ dec.prod ≠ mpiSize then (.nodeCount, some dec)
+    else (fromGridOutcome kind r0nz shape dec, some dec)
 
 end PdeVerif.Mesh
